@@ -5,6 +5,7 @@ import (
 	"encoding/json"
 	"fmt"
 	"os"
+	"runtime"
 	"sort"
 	"strings"
 	"testing"
@@ -12,6 +13,7 @@ import (
 
 	"pgregory.net/rapid"
 
+	"github.com/mimiro-io/datahub/internal/verifhook"
 	kit "github.com/mimiro-io/datahub/internal/verifkit"
 )
 
@@ -58,6 +60,10 @@ type c09Op struct {
 	End   bool       `json:"end,omitempty"`
 	Run   int        `json:"run,omitempty"`
 	Ents  []*kit.Ent `json:"ents,omitempty"`
+	// Stall (end requests of short-lease cases): the completion's deletion pass is held up for 2.5
+	// leases at its first write (a slow disk, a writer holding the dataset lock). The request arrived
+	// in time; how long its completion takes must not matter.
+	Stall bool `json:"stall,omitempty"`
 	// filled in at execution, for the printed history only
 	Code int    `json:"code,omitempty"`
 	Note string `json:"note,omitempty"`
@@ -77,6 +83,7 @@ type c09Sync struct {
 }
 
 type c09m struct {
+	lease time.Duration // the hub's full sync lease (short-lease cases)
 	f     fataler
 	h     *WHub
 	m     *kit.Model
@@ -99,7 +106,11 @@ func newC09(f fataler, short bool) *c09m {
 	if short {
 		o.Lease = c09Lease
 	}
-	c := &c09m{f: f, h: NewWHub(o), m: kit.NewModel(), tomb: map[*kit.Ent]bool{}, cls: map[string]bool{}}
+	return newC09Lease(f, short, o)
+}
+
+func newC09Lease(f fataler, short bool, o kit.HubOpts) *c09m {
+	c := &c09m{lease: o.Lease, f: f, h: NewWHub(o), m: kit.NewModel(), tomb: map[*kit.Ent]bool{}, cls: map[string]bool{}}
 	c.cs.Short = short
 	c.pool = c.h.Pool()
 	for _, n := range []string{"d", "o"} {
@@ -143,7 +154,7 @@ func (c *c09m) pre() bool {
 	if c.dead {
 		return false
 	}
-	if c.cs.Short && c.act != nil && c.act.Leased && time.Since(c.last) > c09Lease*40/100 {
+	if c.cs.Short && c.act != nil && c.act.Leased && time.Since(c.last) > c.lease*40/100 {
 		c.discard()
 		return false
 	}
@@ -152,7 +163,7 @@ func (c *c09m) pre() bool {
 
 // post: the request must have been processed well inside the lease it ran under.
 func (c *c09m) post(wasLeased bool, lastBefore time.Time) bool {
-	if c.cs.Short && wasLeased && time.Since(lastBefore) > c09Lease*80/100 {
+	if c.cs.Short && wasLeased && time.Since(lastBefore) > c.lease*80/100 {
 		c.discard()
 		return false
 	}
@@ -362,14 +373,49 @@ func (c *c09m) http(op *c09Op, t0 time.Time, wasLeased bool, lastBefore time.Tim
 		hdr["universal-data-api-full-sync-end"] = "true"
 	}
 	before := c.dump
-	code, body := c.h.PostBatch("d", op.Ents, hdr)
-	op.Code = code
-	if !op.Start && !c.post(wasLeased, lastBefore) {
-		return
+	var stalledAt time.Time
+	if op.Stall && op.End && c.cs.Short {
+		verifhook.SetCallback("store.beforeIDCommit", func(int) {
+			if !stalledAt.IsZero() {
+				return
+			}
+			pcs := make([]uintptr, 32)
+			frames := runtime.CallersFrames(pcs[:runtime.Callers(2, pcs)])
+			for {
+				fr, more := frames.Next()
+				if strings.HasSuffix(fr.Function, ".CompleteFullSync") {
+					stalledAt = time.Now()
+					time.Sleep(c.lease * 5 / 2)
+					return
+				}
+				if !more {
+					return
+				}
+			}
+		})
 	}
-	if time.Since(t0) > c09Lease*50/100 && c.cs.Short {
-		c.discard() // the request itself took too long to reason about the lease
-		return
+	code, body := c.h.PostBatch("d", op.Ents, hdr)
+	if op.Stall {
+		verifhook.SetCallback("store.beforeIDCommit", nil)
+	}
+	op.Code = code
+	if !stalledAt.IsZero() {
+		// the completion was reached (the lease was released) this long after the request arrived;
+		// everything after that is allowed to take as long as it likes
+		c.cls["end-completion-stalled-beyond-the-lease"] = true
+		if stalledAt.Sub(t0) > c.lease*50/100 { // (pre() made sure the request arrived early in the lease it refreshes)
+			c.discard()
+			return
+		}
+		c.last = time.Now() // nothing is leased any more; keeps the bookkeeping of the following steps sane
+	} else {
+		if !op.Start && !c.post(wasLeased, lastBefore) {
+			return
+		}
+		if time.Since(t0) > c.lease*50/100 && c.cs.Short {
+			c.discard() // the request itself took too long to reason about the lease
+			return
+		}
 	}
 	noEffect := func(why string) {
 		after := kit.DumpJSON(kit.Dump(c.h.Hub))
@@ -746,11 +792,27 @@ func TestVerif_C09_large(t *testing.T) {
 		return
 	}
 	rapid.Check(t, func(t *rapid.T) {
+		// stall: short lease, and the deletion pass of the completing request is held up for 2.5
+		// leases at its first write (which, with >= 1000 deletions, lies in the middle of the pass)
+		stall := rapid.IntRange(0, 2).Draw(t, "stall") == 0
 		c := newC09(t, false)
-		defer c.close()
+		if stall {
+			// the read-back between two steps takes far longer than the usual short lease with
+			// thousands of entities: a lease of 2 s (the completion is then held up for 5 s)
+			c.close()
+			c = newC09Lease(t, true, kit.HubOpts{Lease: 2 * time.Second})
+		}
+		defer func() { c.close() }()
 		n := rapid.SampledFrom([]int{999, 1000, 1001, 1002, 1500, 2001, 2010, 3005}).Draw(t, "n")
 		kept := rapid.IntRange(0, 12).Draw(t, "kept")
 		job := rapid.Bool().Draw(t, "job")
+		if stall {
+			// the completion's first write must lie inside its pass (>= 1000 deletions), with kept
+			// entities on both sides of it
+			job = false
+			n = rapid.SampledFrom([]int{1500, 2001, 2010, 3005}).Draw(t, "nStall")
+			kept = rapid.IntRange(2, 12).Draw(t, "keptStall")
+		}
 		p := c.h.P[0]
 		mk := func(i int, v string) *kit.Ent {
 			return ent(fmt.Sprintf("%s:L%d", p, i), map[string]any{p + ":p0": v}, nil, false)
@@ -764,6 +826,10 @@ func TestVerif_C09_large(t *testing.T) {
 		}
 		var keep []*kit.Ent
 		for i := 0; i < kept; i++ {
+			if stall && i%2 == 0 {
+				keep = append(keep, mk(n-1-rapid.IntRange(0, n-1100).Draw(t, "keepLate"), "v1"))
+				continue
+			}
 			keep = append(keep, mk(rapid.IntRange(0, n-1).Draw(t, "keep"), "v1"))
 		}
 		if job {
@@ -774,12 +840,12 @@ func TestVerif_C09_large(t *testing.T) {
 			c.apply(c09Op{K: "jobEnd", Run: 1})
 		} else {
 			c.apply(c09Op{K: "http", Sync: "big", Start: true, Ents: keep})
-			c.apply(c09Op{K: "http", Sync: "big", End: true})
+			c.apply(c09Op{K: "http", Sync: "big", End: true, Stall: stall})
 		}
 		if c.dead {
 			return
 		}
-		kit.S().Case(map[string]any{"large": n, "kept": kept, "job": job}, true, "large-sync", fmt.Sprintf("large-deletes>=%d", (n-kept)/1000*1000))
+		kit.S().Case(map[string]any{"large": n, "kept": kept, "job": job, "stall": stall}, true, "large-sync", fmt.Sprintf("large-stalled-completion-%v", stall), fmt.Sprintf("large-deletes>=%d", (n-kept)/1000*1000))
 		kit.JournalDone()
 	})
 }
